@@ -95,6 +95,31 @@ CHECKS.update({
          'set; the AT&T transliteration by binutils must give the identical set through asm_att.',
          'No external oracle for Intel spellings; binutils supplies the AT&T text.', '4 C19'),
 })
+CHECKS.update({
+ 'C04': ('exploration', 'bounded exhaustive enumeration of (instruction form, initial state) pairs against the host CPU',
+         'About 1400 integer-core forms encoded by GNU as; for each the full product of an 18(+2)-value boundary alphabet over its input locations x all 64 '
+         'status-flag assignments for flag-reading forms is executed on the host CPU (native runner) and by evaluating the lifted assignment list under '
+         'irsem with parallel assignment; GPRs, defined flags, the data window and the control-flow outcome are compared (SDM undefined table masked). '
+         'The quick tier caps each form at 3000 states (every k-th element of the product) and is therefore not exhaustive; the thorough tier is.',
+         'Trusts the host CPU, the undefined-flag table and irsem. 32-bit values only from the boundary alphabet.', '4 C04'),
+ 'C07': ('model_checking', 'explicit-state BFS over the real emul_lines/eval_instr with canonical-state de-duplication, every trace replayed against a concrete byte machine',
+         'BFS over instruction sequences (alphabet encoded by GNU as, depth 3/4, canonical state = digest of the pool dump, failing and already-seen states not '
+         'expanded) with the invariant "every register, flag and 8/16/32-bit read-back over the touched windows equals the concrete little-endian byte machine '
+         'running the same lifted IR" under 2 valuations; ALL store/load histories with 1..2 (thorough 3) stores + 1 load over widths 8/16/32 x offsets 0..7 x '
+         'constant/symbolic base; rep string instructions with counts 0..3 and at the runaway-guard boundary against the architectural loop.',
+         'The concrete machine interprets the same lifted IR under irsem (the lifter itself is C04). Different symbolic bases are assumed not to alias.', '4 C07'),
+ 'C08': ('exploration', 'bounded exhaustive enumeration of (form, base state, perturbed location) triples on the host CPU',
+         'For every form (integer core by mnemonic x operand form, 62 x87 forms, 99 MMX/SSE forms) x 3 base states, every location of the observed universe is '
+         'perturbed in isolation (2 values) on the CPU; a location that changes a written output is a real read and must be in the union of get_r; every '
+         'location that changes must be in the union of get_w.',
+         'Dependencies are decided on 3 base states x 2 perturbations per location. MXCSR, FIP/FDP/FOP and x87/MMX aliasing are outside the universe.', '4 C08'),
+ 'C12': ('model_checking', 'explicit-state exploration of API-call histories on the real library (fork per history from a pristine image), pure-function model',
+         'ALL histories of length 1..2 (thorough 3) over an alphabet of 33 API calls run in forked children of a pristine image; after each history every probe '
+         'runs in its own grand-child and must equal its pristine result (the model); hidden-state fingerprints give states/transitions and the closure of the '
+         'fingerprint set; failures are attributed to their shortest failing sub-history. Plus input immutability over expression trees, instruction objects and '
+         'machines, and 11 parser-table cache configurations (incl. a stale table generated by the real PLY from a mutated grammar), each in a fresh process.',
+         'The fingerprint covers the instruction/register tables, memo flags on module-level expressions and sys.path. Depth 2/3 only.', '4 C12'),
+})
 PENDING = {}
 
 def main():
